@@ -1283,6 +1283,80 @@ def ptr1(units, R, fn_name='get_item_from_pointer'):
     R.floor('PTR1', 'returning paths of the pointer resolver', n, 1)
 
 
+# ---- OWN11: a node handed over by value leaves nothing behind ---------------------------------------------------------------------
+
+def own11(units, R, unit_names=('cJSON_Utils.c',), floor=1):
+    """overwrite_item(root, *value) copies a whole node over another one (memcpy(root, &replacement, sizeof(cJSON))) and the caller
+    then releases the emptied node alone (cJSON_free(value), not cJSON_Delete).  Whatever the copied node owned - its name, its
+    value string, its children - must live on in root or be released: a payload field of root that the callee sets again behind the
+    copy (root->string = its old name) drops the replacement's, and then the caller has to release that field of the node it frees."""
+    PAY = ('string', 'valuestring', 'child')
+    n = 0
+    for un in unit_names:
+        u = units[un]
+        for H in u.function_list:
+            if H.body is None:
+                continue
+            byval = [p for p in H.params if u.ty(p['ty'])['c'] == 'record' and u.ty(p['ty'])['s'].replace('const ', '').split()[-1] == 'cJSON']
+            if not byval:
+                continue
+            rep = byval[0]
+            ri = [i for i, p in enumerate(H.params) if p['d'] == rep['d']][0]
+            copies = [c for c in H.calls() if callee_name(c) in ('memcpy', '__builtin_memcpy', '__builtin___memcpy_chk', 'memmove') and len(c['args']) >= 2 and
+                      strip_casts(c['args'][1]).get('k') == 'un' and strip_casts(c['args'][1])['op'] == '&' and
+                      strip_casts(strip_casts(c['args'][1])['e']).get('d') == rep['d'] and strip_casts(c['args'][0]).get('k') == 'ref']
+            if not copies:
+                continue
+            root = strip_casts(copies[0]['args'][0])
+            hcfg = H.cfg()
+            cnode = hcfg.node_of_expr(copies[0]['id'])
+            after = hcfg.reachable(cnode.id) if cnode is not None else set()
+            dropped = {}
+            for a in assignments(H):
+                l = strip_casts(a['l'])
+                if l.get('k') == 'mem' and l['f'] in PAY and strip_casts(l['b']).get('d') == root['d']:
+                    an = hcfg.node_of_expr(a['id'])
+                    r = strip_casts(a['r'])
+                    keeps = r.get('k') == 'mem' and r['f'] == l['f'] and strip_casts(r['b']).get('d') == rep['d']
+                    if an is not None and an.id in after and not keeps:
+                        dropped[l['f']] = a
+            for G in u.function_list:
+                if G.body is None:
+                    continue
+                for c in G.calls():
+                    if callee_name(c) != H.name or ri >= len(c['args']):
+                        continue
+                    a0 = strip_casts(c['args'][ri])
+                    if not (a0.get('k') == 'un' and a0['op'] == '*' and strip_casts(a0['e']).get('k') == 'ref'):
+                        continue
+                    v = strip_casts(a0['e'])
+                    gcfg = G.cfg()
+                    cn = gcfg.node_of_expr(c['id'])
+                    reach = gcfg.reachable(cn.id) if cn is not None else set()
+                    shallow = [x for x in G.calls() if callee_name(x) in ('cJSON_free', 'free') and x.get('args') and
+                               strip_casts(x['args'][0]).get('d') == v['d'] and strip_casts(x['args'][0]).get('k') == 'ref' and
+                               gcfg.node_of_expr(x['id']) is not None and gcfg.node_of_expr(x['id']).id in reach]
+                    if not shallow:
+                        continue
+                    n += 1
+                    lost = []
+                    for f_, a_ in sorted(dropped.items()):
+                        rel = [x for x in G.calls() if callee_name(x) in ('cJSON_free', 'free', 'cJSON_Delete') and x.get('args') and
+                               strip_casts(x['args'][0]).get('k') == 'mem' and strip_casts(x['args'][0])['f'] == f_ and
+                               strip_casts(strip_casts(x['args'][0])['b']).get('d') == v['d']]
+                        if not rel:
+                            lost.append((f_, a_))
+                    R.ob('OWN11', G, c, 'what the node handed to %s by value owns lives on or is released' % H.name, not lost,
+                         '%s keeps every payload pointer of the copy (%s); the emptied node is released alone' % (H.name, ', '.join(PAY)) if not dropped else
+                         ('%s sets %s again behind the copy; %s releases %s of the node before freeing it' % (
+                             H.name, ', '.join('->' + f for f in sorted(dropped)), G.name, ', '.join('->' + f for f in sorted(dropped))) if not lost else
+                          '%s sets %s->%s again behind the copy (line %d), so the %s of the node it was handed is in nobody\'s hands, and %s frees that '
+                          'node alone (cJSON_free(%s)) without releasing %s->%s: the block is lost' % (
+                              H.name, root['n'], lost[0][0], lost[0][1]['loc'][0], lost[0][0], G.name, v['n'], v['n'], lost[0][0])),
+                         key='byvalue:%s:%s' % (H.name, G.name))
+    R.floor('OWN11', 'nodes handed over by value and then freed alone', n, floor)
+
+
 # ---- ESC5: a decoded character is not taken for the beginning of another escape sequence ------------------------------------------
 
 def esc5(units, R, unit_names=('cJSON_Utils.c',), floor=0):
